@@ -33,6 +33,12 @@ package bellatrix
 //@   assigns anything, ghost(n_set_exec_header)
 //@   ensures n_set_exec_header == old(n_set_exec_header) + 1
 
+// fork upgrade: assumed to hand back a state view of this fork on success (C14: which upgrade runs when is verified in beacon.UpgradeMaybe)
+//@ func UpgradeToBellatrix(spec, epc, pre) (post, err)
+//@   trusted
+//@   assigns anything
+//@   ensures err == nil ==> post != nil
+
 // BEGIN C18 generated (tools/gen_c18.py in /verif)
 // cancelled: a context cancelled before the call makes it fail; surfaced: a cancellation observed by a poll
 // during the call makes it fail; polled: success after a poll means the context was not cancelled at entry.
